@@ -24,6 +24,14 @@ pub struct GSpec {
     pub sqrt2_pow: i32,
     pub omega_pow: i64,
     pub one_plus: Vec<(i64, i64)>,
+    /// an extra exact factor a + bω + cω² + dω³ (default 1): scalars that are exact but not of
+    /// the form √2^p e^{ikπ/4}, e.g. 3 or 1+2i
+    #[serde(default = "one4")]
+    pub int_factor: [i64; 4],
+}
+
+fn one4() -> [i64; 4] {
+    [1, 0, 0, 0]
 }
 
 impl GSpec {
@@ -36,6 +44,7 @@ impl GSpec {
             sqrt2_pow: 0,
             omega_pow: 0,
             one_plus: vec![],
+            int_factor: [1, 0, 0, 0],
         }
     }
     pub fn add(&mut self, ty: Ty, num: i64, den: i64) -> usize {
@@ -96,6 +105,10 @@ impl GSpec {
         self.sqrt2_pow += o.sqrt2_pow;
         self.omega_pow += o.omega_pow;
         self.one_plus.extend(o.one_plus.iter().cloned());
+        if o.int_factor != [1, 0, 0, 0] {
+            assert!(self.int_factor == [1, 0, 0, 0], "union of two specs with integer factors");
+            self.int_factor = o.int_factor;
+        }
     }
 
     /// Remove vertex `v` (and its edges), renumbering the rest.
@@ -125,7 +138,9 @@ impl GSpec {
 
     /// The exact scalar of the spec, when all its factors are in Z[ω]/2^k.
     pub fn scalar_exact(&self) -> Option<Zw> {
-        let mut s = Zw::sqrt2_pow(self.sqrt2_pow as i64).mul_omega_pow(self.omega_pow);
+        let mut s = Zw::sqrt2_pow(self.sqrt2_pow as i64)
+            .mul_omega_pow(self.omega_pow)
+            .mul(&Zw::from_ints(self.int_factor, 0));
         for &(a, b) in &self.one_plus {
             if b <= 0 || 4 % b != 0 {
                 return None;
@@ -139,6 +154,12 @@ impl GSpec {
         let m = std::f64::consts::SQRT_2.powi(self.sqrt2_pow);
         let a = std::f64::consts::PI * (self.omega_pow as f64) / 4.0;
         let (mut re, mut im) = (m * a.cos(), m * a.sin());
+        {
+            let (fr, fi) = Zw::from_ints(self.int_factor, 0).to_c64();
+            let (r2, i2) = (re * fr - im * fi, re * fi + im * fr);
+            re = r2;
+            im = i2;
+        }
         for &(p, q) in &self.one_plus {
             let t = std::f64::consts::PI * (p as f64) / (q as f64);
             let (fr, fi) = (1.0 + t.cos(), t.sin());
@@ -168,6 +189,9 @@ impl GSpec {
             * Scalar4::from_phase(Rational64::new(self.omega_pow.rem_euclid(8), 4));
         for &(a, b) in &self.one_plus {
             s *= Scalar4::one_plus_phase(Rational64::new(a, b));
+        }
+        if self.int_factor != [1, 0, 0, 0] {
+            s *= Scalar4::new(self.int_factor, 0);
         }
         *g.scalar_mut() = s;
         g
@@ -742,8 +766,24 @@ pub fn json_diagram(d: &mut Decider) -> GSpec {
         }
     }
     // scalar
-    match d.choose("j.scal", 6) {
+    match d.choose("j.scal", 8) {
         0 => {}
+        6 => {
+            // exact, but not a power of sqrt2 times a power of omega: small integer combinations
+            g.sqrt2_pow = d.range("j.sp", -4, 4) as i32;
+            loop {
+                g.int_factor = [d.range("j.i0", -3, 3), d.range("j.i1", -2, 2), d.range("j.i2", -3, 3), d.range("j.i3", -2, 2)];
+                if g.int_factor != [0, 0, 0, 0] {
+                    break;
+                }
+            }
+        }
+        7 => {
+            // the zero scalar: a (1 + e^{i pi}) factor
+            g.sqrt2_pow = d.range("j.sp", -3, 3) as i32;
+            g.omega_pow = d.range("j.sk", 0, 7);
+            g.one_plus.push((1, 1));
+        }
         1 | 2 => {
             g.sqrt2_pow = d.range("j.sp", -12, 12) as i32;
             g.omega_pow = d.range("j.sk", 0, 7);
